@@ -1,13 +1,16 @@
 (* Properties/C39.v — dropping or shutting down a connection releases it correctly.
    Only statements, each closed by [exact] of a lemma of C39/*.v, and their assumptions.
 
-   Vocabulary (C39/Model.v).  A state records the live user handles (Connection values, MessageStreams, Proxies, SignalStreams:
-   one strong reference each), the queued remove-match tasks and the method handlers in flight (one strong reference each),
+   Vocabulary (C39/Model.v).  A state records the live user handles (Connection values, MessageStreams, SignalStreams: one
+   strong reference each; a Proxy: one plus what its property-cache task holds — 3 while it waits for GetAll, 1 afterwards; a
+   blocking Proxy: two), cancelled cache tasks the executor has not dropped yet ([zombies]), the queued remove-match tasks and the
+   method handlers in flight (one strong reference each),
    the method calls waiting for the dispatch task and the graceful_shutdown futures waiting (no reference), whether
    ConnectionInner still exists ([alive]: the write half with it) and whether the reader task does ([reader]: the read half),
-   and the ordered record of events.  [strong s] = handles + remove-match tasks + handlers in flight = Arc::strong_count.
+   and the ordered record of events.  [strong s] = weights of the handles + zombies + remove-match tasks + handlers in flight = Arc::strong_count.
    [reach tr s]: s is reached from the state after build() by the history tr of user operations (LNew, LDrop, LGraceful,
-   LCloseCall), peer messages (LCallIn) and internal steps (LRemover, LDispatch, LReply, LWake, LReaderDrop) in ANY order. *)
+   LCloseCall, LAsyncDrop, LCacheStart), peer messages (LCallIn, LCacheReady = the GetAll reply) and internal steps (LRemover, LReap,
+   LDispatch, LReply, LWake, LReaderDrop) in ANY order. *)
 From ZV Require Import Base.Bytes Base.Res C39.Model C39.Spec C39.Proofs C39.Run C39.RunFacts.
 
 (* when the last strong reference is dropped the transport is closed — and exactly then *)
@@ -33,7 +36,7 @@ Print Assumptions C39_order.
 
 (* graceful_shutdown completes only after the in-flight handlers have replied and ended (nothing holds the connection) ... *)
 Theorem C39_graceful_only_after : forall (tr : list label) (s : st) (n : nat), reach tr s -> In (EWake n) (events s) ->
-  alive s = false /\ handles s = [] /\ inflight s = [] /\ removers s = 0.
+  alive s = false /\ handles s = [] /\ inflight s = [] /\ removers s = 0 /\ zombies s = [].
 Proof. exact graceful_only_after. Qed.
 Print Assumptions C39_graceful_only_after.
 
@@ -43,13 +46,23 @@ Theorem C39_graceful : forall (tr : list label) (s : st) (n : nat),
 Proof. exact graceful_once. Qed.
 Print Assumptions C39_graceful.
 
-(* nothing is left behind: all handles dropped, all handlers returned, no internal step left => both halves of the socket are
-   gone, every graceful_shutdown has returned, nothing is queued *)
+(* nothing is left behind: all handles dropped (every proxy, whatever its cache had started), all handlers returned, no internal
+   step left => both halves of the socket are gone, every graceful_shutdown has returned, nothing is queued *)
 Theorem C39_released : forall (tr : list label) (s : st), reach tr s -> handles s = [] -> inflight s = [] ->
-  step LRemover s = None -> step LDispatch s = None -> (forall n, step (LWake n) s = None) -> step LReaderDrop s = None ->
-  alive s = false /\ reader s = false /\ waiters s = [] /\ queued s = [] /\ removers s = 0.
+  step LRemover s = None -> step LReap s = None -> step LDispatch s = None -> (forall n, step (LWake n) s = None) ->
+  step LReaderDrop s = None ->
+  alive s = false /\ reader s = false /\ waiters s = [] /\ queued s = [] /\ removers s = 0 /\ zombies s = [].
 Proof. exact all_released. Qed.
 Print Assumptions C39_released.
+
+(* a proxy owns what its property cache started: dropping it and letting the executor run gives back every reference the
+   proxy and its cache task held (1, 1 + 3 while waiting for GetAll, 1 + 1 afterwards) — the fact the correspondence checks *)
+Theorem C39_proxy_owns_cache : forall (s : st) (n : nat) (c : cache),
+  lookup n (handles s) = Some (HProxy c) -> zombies s = [] ->
+  exists s', Model.run (LDrop n :: (if started c then [LReap; LRemover] else [])) s = Some s' /\
+             strong s' + weight (HProxy c) = strong s /\ zombies s' = [] /\ lookup n (handles s') = lookup n (remove_h n (handles s)).
+Proof. exact drop_proxy_releases. Qed.
+Print Assumptions C39_proxy_owns_cache.
 
 (* and that point is reached: every internal step decreases nu *)
 Theorem C39_terminates : forall (l : label) (s s' : st), internal l = true -> step l s = Some s' -> nu s' < nu s.
